@@ -122,6 +122,19 @@ check('C16', 'E1', 'exploration',
       'lower-cased in files; six stale documented defaults).',
       'DESIGN.md 2/C16')
 
-_PENDING = {'C06': 'check not built yet in this round (planned: bounded exhaustive exploration, see DESIGN.md section 2)', 'C09': 'check not built yet in this round (planned: bounded exhaustive exploration, see DESIGN.md section 2)', 'C10': 'check not built yet in this round (planned: bounded exhaustive exploration, see DESIGN.md section 2)', 'C11': 'check not built yet in this round (planned: bounded exhaustive exploration, see DESIGN.md section 2)', 'C12': 'check not built yet in this round (planned: bounded exhaustive exploration, see DESIGN.md section 2)', 'C13': 'check not built yet in this round (planned: bounded exhaustive exploration, see DESIGN.md section 2)', 'C14': 'check not built yet in this round (planned: bounded exhaustive exploration, see DESIGN.md section 2)', 'C15': 'check not built yet in this round (planned: bounded exhaustive exploration, see DESIGN.md section 2)', 'C17': 'check not built yet in this round (planned: bounded exhaustive exploration, see DESIGN.md section 2)', 'C18': 'check not built yet in this round (planned: bounded exhaustive exploration, see DESIGN.md section 2)', 'C19': 'check not built yet in this round (planned: bounded exhaustive exploration, see DESIGN.md section 2)', 'C20': 'check not built yet in this round (planned: bounded exhaustive exploration, see DESIGN.md section 2)'}
+check('C09', 'E2', 'model_checking',
+      'explicit-state BFS over Context.label/ref histories against a label-table model, plus exhaustive label/reference placements in documents',
+      '(a) Breadth-first search (depth 4 quick / 6 thorough) over histories of ref(object, key, label), label(label, node), '
+      'label(label) with and without a current labelled object, with blank and padded labels, on a real Context with real Macro '
+      'nodes; after every event the label table, every idref entry (resolved node or placeholder carrying the label as id), the '
+      'pending list, node identifiers and persistentLabels are compared with the model. (b) Every document with <= 2 (thorough 3) '
+      'labelled objects of 10 kinds and <= 2 references (\\ref/\\pageref, to any label or a missing one) in every slot before, '
+      'between, inside and after the objects: each reference must resolve to the object located structurally in the tree, carry '
+      'its number, dangling ones must resolve to no document node, and nothing may stay pending.',
+      'Trusted: the label-table model and the structural locator in vp/checks/c09.py; expected numbers assume article class '
+      'without counter manipulation. Normal form: a label is defined once, a node carries one label.',
+      'DESIGN.md 2/C09')
+
+_PENDING = {'C06': 'check not built yet in this round (planned: bounded exhaustive exploration, see DESIGN.md section 2)', 'C10': 'check not built yet in this round (planned: bounded exhaustive exploration, see DESIGN.md section 2)', 'C11': 'check not built yet in this round (planned: bounded exhaustive exploration, see DESIGN.md section 2)', 'C12': 'check not built yet in this round (planned: bounded exhaustive exploration, see DESIGN.md section 2)', 'C13': 'check not built yet in this round (planned: bounded exhaustive exploration, see DESIGN.md section 2)', 'C14': 'check not built yet in this round (planned: bounded exhaustive exploration, see DESIGN.md section 2)', 'C15': 'check not built yet in this round (planned: bounded exhaustive exploration, see DESIGN.md section 2)', 'C17': 'check not built yet in this round (planned: bounded exhaustive exploration, see DESIGN.md section 2)', 'C18': 'check not built yet in this round (planned: bounded exhaustive exploration, see DESIGN.md section 2)', 'C19': 'check not built yet in this round (planned: bounded exhaustive exploration, see DESIGN.md section 2)', 'C20': 'check not built yet in this round (planned: bounded exhaustive exploration, see DESIGN.md section 2)'}
 for _p, _why in _PENDING.items():
     NOT_APPLICABLE.append({'property_id': _p, 'reason': _why})
